@@ -4,6 +4,7 @@
 #include <Eigen/Core>
 #include <cassert>
 #include <memory>
+#include <string>
 #include "romea_core_common/containers/grid/WrappableGrid.hpp"
 
 namespace {
@@ -41,13 +42,28 @@ struct Model
   }
 };
 
+// The cell type is a template parameter of the grid: int cells, and cells that own memory (a string long enough
+// to live on the heap), for which copying, moving and assigning are different operations.
+template<class T> struct CellOf;
+template<> struct CellOf<int>
+{
+  static int make(int v) {return v;}
+  static std::string show(int v) {return std::to_string(v);}
+};
+template<> struct CellOf<std::string>
+{
+  static std::string make(int v) {return "cell-value-kept-on-the-heap:" + std::to_string(v);}
+  static std::string show(const std::string & v) {return "\"" + v + "\"";}
+};
+
 // kind 0 translate(k, value) ; 1 write(cell)=value ; 2 continue on a copy-constructed grid ; 3 on a copy-assigned one
 struct GridOp {int kind; int k[3]; int cell[3]; int value;};
 
-template<size_t DIM>
+template<size_t DIM, class T = int>
 void runHistory(vf::Ctx & c, const int * n, const std::vector<GridOp> & ops)
 {
-  using Grid = romea::core::WrappableGrid<int, DIM>;
+  using Grid = romea::core::WrappableGrid<T, DIM>;
+  using CT = CellOf<T>;
   using CellIndexes = typename Grid::CellIndexes;
   using Offset = typename Grid::CellIndexesOffset;
   CellIndexes nn;
@@ -64,7 +80,7 @@ void runHistory(vf::Ctx & c, const int * n, const std::vector<GridOp> & ops)
           CellIndexes ci;
           for (size_t d = 0; d < DIM; ++d) {ci[d] = static_cast<size_t>(i[d]);}
           int v = 1000 + static_cast<int>(m.lin(i));
-          (*gridHolder)(ci) = v;
+          (*gridHolder)(ci) = CT::make(v);
           m.cells[m.lin(i)] = v;
         }
       }
@@ -82,18 +98,18 @@ void runHistory(vf::Ctx & c, const int * n, const std::vector<GridOp> & ops)
       std::unique_ptr<Grid> other(new Grid(nn));
       Offset one;
       for (size_t d = 0; d < DIM; ++d) {one[d] = 1;}
-      other->translate(one, 777);
+      other->translate(one, CT::make(777));
       *other = grid;
       gridHolder = std::move(other);
     } else if (op.kind == 0) {
       Offset off;
       for (size_t d = 0; d < DIM; ++d) {off[d] = op.k[d];}
-      grid.translate(off, op.value);
+      grid.translate(off, CT::make(op.value));
       m.translate(op.k, op.value);
     } else {
       CellIndexes ci;
       for (size_t d = 0; d < DIM; ++d) {ci[d] = static_cast<size_t>(op.cell[d]);}
-      grid(ci) = op.value;
+      grid(ci) = CT::make(op.value);
       m.cells[m.lin(op.cell)] = op.value;
     }
     // after every op: every cell and the reported offset
@@ -105,10 +121,12 @@ void runHistory(vf::Ctx & c, const int * n, const std::vector<GridOp> & ops)
         for (i[0] = 0; i[0] < m.n[0]; ++i[0]) {
           CellIndexes ci;
           for (size_t d = 0; d < DIM; ++d) {ci[d] = static_cast<size_t>(i[d]);}
-          int got = cg(ci), want = m.cells[m.lin(i)];
-          if (got != want) {
-            c.fail(vf::fmt("after op %d (%s): cell (%d,%d,%d) of a %dx%dx%d grid reads %d, the window model says %d",
-              step, op.kind == 0 ? "translate" : (op.kind == 1 ? "write" : "copy"), i[0], i[1], i[2], m.n[0], m.n[1], m.n[2], got, want));
+          const T & got = cg(ci);
+          int want = m.cells[m.lin(i)];
+          if (!(got == CT::make(want))) {
+            c.fail(vf::fmt("after op %d (%s): cell (%d,%d,%d) of a %dx%dx%d grid reads %s, the window model says %s",
+              step, op.kind == 0 ? "translate" : (op.kind == 1 ? "write" : "copy"), i[0], i[1], i[2], m.n[0], m.n[1], m.n[2],
+              CT::show(got).c_str(), CT::show(CT::make(want)).c_str()));
           }
         }
       }
@@ -177,7 +195,7 @@ void enumerated(vf::Ctx & c)
 }
 
 // ---- random histories: grids up to 8 cells per axis, <= 50 ops, offsets up to twice the size, writes ----
-template<size_t DIM>
+template<size_t DIM, class T = int>
 void randomHistory(vf::Ctx & c)
 {
   int n[3] = {1, 1, 1};
@@ -212,7 +230,7 @@ void randomHistory(vf::Ctx & c)
   if (hasWrite) {c.label("writes-interleaved");}
   if (copied) {c.label("continued-on-a-copy-of-the-grid");}
   c.commit();
-  runHistory<DIM>(c, n, ops);
+  runHistory<DIM, T>(c, n, ops);
 }
 
 const char * kEnumRule =
@@ -222,7 +240,8 @@ const char * kEnumRule =
   "modulo the size in some axis (i.e. not the first translation from the pristine state). Leaves are distinct by construction.";
 const char * kRandRule =
   "grids with 1..8 cells per axis, 1..50 ops (3:1 translate:write), per-axis offsets 0 / within +-n / within +-2n, arbitrary "
-  "empty and written values in +-1e6. Non-trivial: same rule as the enumeration.";
+  "empty and written values in +-1e6; the *_heap_cells variants run the same histories on a grid of std::string cells "
+  "(values long enough to own heap memory). Non-trivial: same rule as the enumeration.";
 
 const std::vector<vf::Sub> kSubs = {
   {"enum2d_len3", enumerated<2, 4, 3>, kEnumRule},
@@ -230,6 +249,8 @@ const std::vector<vf::Sub> kSubs = {
   {"enum3d_len3", enumerated<3, 3, 3>, kEnumRule},
   {"random2d", randomHistory<2>, kRandRule},
   {"random3d", randomHistory<3>, kRandRule},
+  {"random2d_heap_cells", randomHistory<2, std::string>, kRandRule},
+  {"random3d_heap_cells", randomHistory<3, std::string>, kRandRule},
 };
 
 }  // namespace
